@@ -520,7 +520,8 @@ fn shape_spline<T>(s: &PPSpline<T>, f: impl Fn(&T) -> Value) -> Value {
 fn shape_fx(f: &FXRates) -> Value {
     let ccys = verif::fxrates_currencies(f);
     let q = verif::fxrates_quotes(f);
-    json!({"t":"FXRates","nccy": ccys.len(), "nq": q.len(), "ccylens": ccys.iter().map(|c| c.len()).collect::<Vec<_>>(),
+    let st: Vec<i64> = q.iter().map(|(_, _, _, s)| s.map(|d| d.and_utc().timestamp() / 60).unwrap_or(-1)).collect();
+    json!({"t":"FXRates","nccy": ccys.len(), "nq": q.len(), "ccylens": ccys.iter().map(|c| c.len()).collect::<Vec<_>>(), "settles": st,
            "quotes": q.iter().map(|(_, _, n, _)| shape_num(n)).collect::<Vec<_>>()})
 }
 fn shape_tagged(t: &Tagged) -> Value {
